@@ -219,6 +219,11 @@ def r41(e: Engine, rep: Report):
     for n in mk:
         rep.evaluations += 1
         d = [k.value for k in n.ast.keywords if k.arg == 'dir']
+        # (called through partial(mkstemp, dir=...) handed to a helper: the
+        # keywords the partial bound)
+        via = getattr(n.extra.get('res'), 'via', None)
+        if not d and via is not None:
+            d = [k.value for k in via.keywords if k.arg == 'dir']
         rep.check(bool(d) and ast.unparse(d[0]) == 'self.tmp_dir', 'R4.1',
                   where, 'temp file is created in the scratch directory',
                   'mkstemp does not use dir=self.tmp_dir: the temp file '
